@@ -43,14 +43,18 @@ type prog struct {
 	NoVM    bool     `json:"no_vm,omitempty"` // calls exit()/die(): os.Exit would end the harness child
 	Gen     *genProg `json:"gen,omitempty"`
 
-	vmOutcome  *Outcome // the unique outcome on a fresh VM with nothing run before (set by vmStream)
-	vmUnstable string   // description of the outcomes when they were not unique
+	procOutcome *Outcome // the unique outcome of `origami <file>` in fresh processes (set by procStream)
+	vmOutcome   *Outcome // the unique outcome on fresh VMs of a long-lived process, after whatever that process ran before (set by vmStream)
+	before      []string // the files that process had run before
+	alone       *Outcome // the outcome on a fresh VM as the first thing a fresh process runs (set by aloneStream / pairCheck)
+	selfAfter   *Outcome // non-nil: the second run in that same fresh process (fresh VM again) differed from the first
 }
 
 type repCase struct {
-	Kind string `json:"kind"` // rep | pair
+	Kind string `json:"kind"` // rep | pair | hist | cli
 	P    prog   `json:"p"`
-	A    *prog  `json:"a,omitempty"` // pair: run A first (other VM, same process)
+	A    *prog  `json:"a,omitempty"`    // pair: run A first (other VM, same process)
+	Hist []prog `json:"hist,omitempty"` // hist: run all of these first, in this order, each on its own VM
 	Reps int    `json:"reps,omitempty"`
 	Mode string `json:"mode,omitempty"` // proc | vm
 }
@@ -223,6 +227,7 @@ type env struct {
 	progDir string
 	nfile   int
 	need    int // runs needed per program (calibrated)
+	all     []*prog
 }
 
 func (e *env) materialise(p *prog) {
@@ -290,10 +295,14 @@ func Run(c *vh.Ctx) {
 	e.orderStream()
 	lap("script-level insertion order")
 	pool := e.buildPool()
+	e.all = pool
 	ok := e.procStream(pool)
 	lap("fresh processes")
+	e.probeTableCheck(m)
 	ok = e.vmStream(ok)
 	lap("fresh VMs")
+	ok = e.aloneStream(ok)
+	lap("first program of a fresh process; command line against in-process runner")
 	e.pairStream(ok)
 	lap("pairs")
 	e.knownStream()
@@ -373,6 +382,7 @@ func (e *env) procStream(pool []*prog) []*prog {
 			continue
 		}
 		if t.distinct() == 1 {
+			p.procOutcome = &t.first[0]
 			ok = append(ok, p)
 			continue
 		}
@@ -506,6 +516,7 @@ func (e *env) vmStream(pool []*prog) []*prog {
 		c.SampleSome(map[string]any{"program": p.Name, "mode": "vm", "runs": reps, "ms": r.Ans.MilliS, "outcome": clip(t.describe(), 300)}, 131)
 		if t.distinct() == 1 {
 			p.vmOutcome = &t.first[0]
+			p.before = r.Before
 			ok = append(ok, p)
 			continue
 		}
@@ -620,5 +631,29 @@ func (e *env) replay(m *vh.Model) {
 		}
 		fix(rc.A)
 		e.pairCheck([]pairCase{{A: rc.A, B: &rc.P, Sig: rc.Mode}}, true)
+	case "hist":
+		var hist []*prog
+		for i := range rc.Hist {
+			fix(&rc.Hist[i])
+			hist = append(hist, &rc.Hist[i])
+		}
+		e.aloneOf([]*prog{&rc.P})
+		c.Eval("hist:"+rc.P.Src, true)
+		if rc.P.alone == nil {
+			c.Note("replay: the program does not complete as the first program of a fresh process")
+			return
+		}
+		if o := e.afterHistory(hist, &rc.P); o != nil && o.key(rc.P.MaskLog) != rc.P.alone.key(rc.P.MaskLog) {
+			c.Violation("residue:history:"+featureOf(&rc.P), fmt.Sprintf("%s behaves differently after %d other programs ran on other VMs of the process: alone %q, after them %q",
+				rc.P.Name, len(hist), clip(rc.P.alone.key(rc.P.MaskLog), 400), clip(o.key(rc.P.MaskLog), 400)), rc)
+		}
+	case "cli":
+		t := e.confirmProc(&rc.P, 3)
+		if t.distinct() == 1 {
+			rc.P.procOutcome = &t.first[0]
+		}
+		e.aloneOf([]*prog{&rc.P})
+		c.Eval("cli:"+rc.P.Src, true)
+		e.cliAgainstRunner(&rc.P)
 	}
 }
